@@ -152,7 +152,7 @@ pub fn minimise(prop: Prop, trace: &Trace, orig: &Violation, extra_keep: &dyn Fn
 		best.steps.truncate(best_v.step + 1);
 	}
 
-	let mut try_cand = |cand: Trace, best: &mut Trace, best_v: &mut Violation, attempts: &mut usize| -> bool {
+	let try_cand = |cand: Trace, best: &mut Trace, best_v: &mut Violation, attempts: &mut usize| -> bool {
 		if *attempts >= MAX_ATTEMPTS {
 			return false;
 		}
